@@ -54,7 +54,7 @@ only after it has been told that the other direction is over) —, all endpoint 
 (any interleaving of the two goroutines, Writes that stay in progress on a slow sink) followed by the
 completion of the run: the relay returns, each side has received a prefix of the other side's bytes in
 order, and all of them unless that side itself refused a Write. Hypothesis `TcpWF`: a passive peer can be
-told (its object implements `CloseWrite`) and not both peers are passive. In particular: when one side
+told (its object forwards a half-close: `tryCloseWrite kind`) and not both peers are passive. In particular: when one side
 FAILS while the other is passive, the relay still signals the end to the passive side and returns. -/
 theorem C12_tcp (A B : EP) (hwf : TcpWF A B) (σ : List TTok) :
     holdsTcp A B (tcpObs A B (tcpRun A B (tcpComplete A B σ))) = true :=
@@ -97,12 +97,12 @@ theorem C12_tcp_reverse_continues (A B : EP) (s : TcpSt) (c : Bytes) (cs : List 
   split <;> rfl
 
 /-- **What `tryCloseWrite` does, per kind**: a half-close reaches socket B exactly when A→B has finished and
-B implements `CloseWrite`; for the wrapper kinds (`same`: reader and writer are the same transport conn, as all
+B implements `CloseWrite` (directly, or as a wrapper built with a `closeWriteFunc`); for the wrapper kinds (`same`: reader and writer are the same transport conn, as all
 production callers build the tunnel side; `split`; `none`) nothing reaches the transport — the peer sees the end
 of that direction only at the final `Close`, which is issued only after BOTH directions have finished. -/
 theorem C12_tcp_halfclose_by_kind (A B : EP) (σ : List TTok) :
-    ((tcpObs A B (tcpRun A B σ)).cwB = true ↔ (tcpRun A B σ).ab.done = true ∧ B.kind = .cw) ∧
-    ((tcpObs A B (tcpRun A B σ)).cwA = true ↔ (tcpRun A B σ).ba.done = true ∧ A.kind = .cw) ∧
+    ((tcpObs A B (tcpRun A B σ)).cwB = true ↔ (tcpRun A B σ).ab.done = true ∧ (B.kind = .cw ∨ B.kind = .wcw)) ∧
+    ((tcpObs A B (tcpRun A B σ)).cwA = true ↔ (tcpRun A B σ).ba.done = true ∧ (A.kind = .cw ∨ A.kind = .wcw)) ∧
     ((tcpObs A B (tcpRun A B σ)).closed = true ↔ (tcpRun A B σ).ab.done = true ∧ (tcpRun A B σ).ba.done = true) := by
   refine ⟨?_, ?_, by simp [tcpObs, TcpSt.returned]⟩
   · cases hk : B.kind <;> simp [tcpObs, tryCloseWrite, hk]
